@@ -123,7 +123,41 @@ MUTANTS = {
 }
 
 
+# law-preserving refactorings: the listed checks must stay QUIET on them (false-alarm guard).
+# id -> (comma-separated checks, relative file, old, new, note)
+REFACTORS = {
+    "ok-random-transfer-samples-indices": ("C02,C03,C07,C01", "votekit/elections/transfers.py",
+        "    surplus_ballots = random.sample(\n        transferable_ballots,\n        min(int(fpv) - threshold, len(transferable_ballots)),\n    )",
+        "    _idx = random.sample(\n        range(len(transferable_ballots)),\n        min(int(fpv) - threshold, len(transferable_ballots)),\n    )\n    surplus_ballots = [transferable_ballots[i] for i in _idx]",
+        "random transfer samples indices instead of ballot objects"),
+    "ok-tiebreak-by-shuffle": ("C10,C17,C02,C01", "votekit/utils.py",
+        "        new_ranking = tuple(\n            frozenset({c}) for c in random.sample(list(r_set), k=len(r_set))\n        )",
+        "        _lst = list(r_set)\n        random.shuffle(_lst)\n        new_ranking = tuple(frozenset({c}) for c in _lst)",
+        "random tiebreak shuffles a list instead of sampling a permutation"),
+    "ok-get-step-returns-copy": ("C09", "votekit/models.py",
+        "        return (self.get_profile(round_number), self.election_states[round_number])",
+        "        import dataclasses as _dc\n\n        return (self.get_profile(round_number), _dc.replace(self.election_states[round_number]))",
+        "get_step returns a copy of the recorded state"),
+    "ok-skip-empty-surplus-draw": ("C02,C03", "votekit/elections/transfers.py",
+        "    transferable_ballots = [b for b in winner_ballots if b.ranking]\n",
+        "    transferable_ballots = [b for b in winner_ballots if b.ranking]\n    if int(fpv) - threshold <= 0:\n        transferable_ballots = []\n",
+        "random transfer short-circuits when there is no surplus"),
+    "ok-rd-draws-candidate-directly": ("C17,C01", "votekit/elections/election_types/ranking/random_dictator.py",
+        "        random_ballot = random.choices(ballots, weights=weights, k=1)[0]\n",
+        "        _order = random.choices(range(len(ballots)), weights=weights, k=1)[0]\n        random_ballot = ballots[_order]\n",
+        "RandomDictator draws the ballot's index instead of the ballot"),
+}
+
+
 def apply_mutant(mid, dst):
+    if mid in REFACTORS:
+        prop, rel, old, new, note = REFACTORS[mid]
+        p = os.path.join(dst, rel)
+        s = open(p).read()
+        if old not in s:
+            raise SystemExit(f"refactor {mid}: pattern not found in {rel}")
+        open(p, "w").write(s.replace(old, new, 1))
+        return prop
     prop, rel, old, new, note = MUTANTS[mid]
     p = os.path.join(dst, rel)
     s = open(p).read()
@@ -141,10 +175,13 @@ def run_mutant(mid, runs):
         prop = apply_mutant(mid, dst)
         env = dict(os.environ, VOTEKIT_SRC=dst)
         # evidence/replays of the real tree must not be overwritten by a mutant run
-        p = subprocess.run([os.path.join(VERIF, "check"), prop, "--runs", str(runs), "--tier", "quick"], env=dict(env, VOTESIM_OUT=scratch),
-                           capture_output=True, text=True)
-        lines = [ln for ln in p.stdout.splitlines() if ln.startswith("VIOLATION") or ln.startswith("  sig=")]
-        return prop, p.returncode, lines
+        rc, lines = 0, []
+        for pr in prop.split(","):
+            p = subprocess.run([os.path.join(VERIF, "check"), pr, "--runs", str(runs), "--tier", "quick"], env=dict(env, VOTESIM_OUT=scratch),
+                               capture_output=True, text=True)
+            lines += [pr + " " + ln for ln in p.stdout.splitlines() if ln.startswith("VIOLATION") or ln.startswith("  sig=") or ln.startswith("HARNESS")]
+            rc = max(rc, p.returncode)
+        return prop, rc, lines
     finally:
         shutil.rmtree(scratch, ignore_errors=True)
 
@@ -162,10 +199,19 @@ def main(argv):
             return 0
         else:
             ids.append(a)
-    ids = ids or list(MUTANTS)
+    if ids == ["refactors"]:
+        ids = list(REFACTORS)
+    ids = ids or list(MUTANTS) + list(REFACTORS)
     missed = 0
     for mid in ids:
         prop, rc, lines = run_mutant(mid, runs)
+        if mid in REFACTORS:
+            ok = rc == 0
+            missed += 0 if ok else 1
+            print(f"{'QUIET ' if ok else 'FALSE-ALARM'} {mid} on {prop} (rc={rc}): {REFACTORS[mid][4]}")
+            for ln in lines[:4]:
+                print("    " + ln[:260])
+            continue
         caught = rc == 1
         missed += 0 if caught else 1
         print(f"{'CAUGHT' if caught else 'MISSED'} {mid} by {prop} (rc={rc}): {MUTANTS[mid][4]}")
